@@ -43,6 +43,17 @@ def plan(tier, seed):
                            env=dict(envv, VERIF_SPLITS=",".join(map(str, sp))))
                     j["name"] += "[n=%d,list=%d,elem=%d,splits=%s]" % (n, ol, oe, "-".join(map(str, sp)) or "none")
                     jobs.append(j)
+                    if len(sp) <= 1 or tier == "thorough":
+                        # the same pages with PLAIN values
+                        j = ch("C15", "vf/pyxlift/h_c15v2.py", "h_read_col_list_v2", t,
+                               ["core.read_col", "core.read_data_page_v2 (repeated-column branch, PLAIN values)",
+                                "cencoding._assemble_objects", "schema.SchemaHelper"],
+                               shape=dict(n=n, optional_list=ol, optional_element=oe, v2_page_boundaries=list(sp),
+                                          values="PLAIN"),
+                               env=dict(envv, VERIF_SPLITS=",".join(map(str, sp)), VERIF_V2ENC="plain"))
+                        j["name"] += "[n=%d,list=%d,elem=%d,splits=%s,plain]" % (n, ol, oe,
+                                                                               "-".join(map(str, sp)) or "none")
+                        jobs.append(j)
     jobs.append(ch("C15", "vf/pyshim/h_mapzip.py", "h_map_zip", t, ["core.read_row_group_arrays", "schema._is_map_like",
                                                                   "schema.SchemaHelper"]))
     jobs.append(ch("C15", "vf/pyshim/h_page.py", "h_page_v1_nested", t, ["core.read_data_page", "core.read_rep",
